@@ -428,6 +428,18 @@ func bubbleState() (fingerprint string, total, active, nonDurable int, dump stri
 	return strings.Join(parts, " "), total, active, nonDurable, dump
 }
 
+// BubbleDump returns the stacks of the goroutines that belong to a synctest bubble.
+func BubbleDump() string {
+	_, _, _, _, dump := bubbleState()
+	var keep []string
+	for _, g := range strings.Split(dump, "\n\n") {
+		if strings.Contains(strings.SplitN(g, "\n", 2)[0], "synctest bubble") {
+			keep = append(keep, g)
+		}
+	}
+	return strings.Join(keep, "\n\n")
+}
+
 // Watchdog guards one synctest case against a deadlock that synctest itself
 // cannot report: a goroutine of the code under test blocked on a mutex (not
 // "durably" blocked) keeps both synctest.Wait and the virtual clock from ever
